@@ -69,6 +69,7 @@ VisitWhile(tree, tag, body, step, d, bs) ==
 Visit(tree, n, d, bs) ==
   LET nd == tree[n] IN
   CASE nd.k \in {"s", "n"} -> <<Append2(bs, [k |-> "s", tag |-> nd.id, t |-> 0, f |-> 0]), {}>>
+    [] nd.k = "d" -> <<bs, {}>>                                \* the declaration is appended to the current block; it carries no tag
     [] nd.k = "r" -> <<Append2(bs, [k |-> "ret", tag |-> nd.id, t |-> 0, f |-> 0]), {}>>
     [] nd.k = "blk" -> VisitList(tree, nd.kids, 1, d, bs, {})
     [] nd.k = "wh" -> VisitWhile(tree, nd.id, nd.t, 0, d, bs)
